@@ -567,10 +567,13 @@ fn c15_ws_lifecycle(case: &Case) {
     net::reset(NetConfig { capacity: pick(&[4096usize, 65_536]), lat_min: pick(&[0u64, 10_000]), lat_max: pick(&[10_000u64, 300_000]), max_segment: pick(&[0usize, 0, 97]) });
     let nconn = pick(&[1u32, 1, 2, 2, 3, 4, 6, 8, 16, 32]) as usize;
     let plans: Vec<Plan> = (0..nconn).map(|_| draw_plan(mode)).collect();
+    // co-hosting modes: at the run-level event the embedder sometimes aborts its per-connection
+    // tasks (drops the serve_connection futures) instead of cancelling / waiting
+    let abort_tasks = matches!(mode, Mode::Embedder | Mode::Adopted) && simkernel::choose(3) == 0;
     let extra_hellos = pick(&[0usize, 0, 3, 6]);
     let hello_pad = pick(&[0usize, 1500]);
     let drain_ms = pick(&[50u64, 300, 2_000]);
-    case.sample(json!({"mode": format!("{mode:?}"), "connections": nconn, "extra_connect_notifies": extra_hellos, "connect_notify_pad": hello_pad, "drain_timeout_ms": drain_ms,
+    case.sample(json!({"mode": format!("{mode:?}"), "connections": nconn, "embedder_aborts_tasks_at_the_end": abort_tasks, "extra_connect_notifies": extra_hellos, "connect_notify_pad": hello_pad, "drain_timeout_ms": drain_ms,
         "plans": plans.iter().map(|p| format!("{:?}/{:?}/{:?}", p.handshake, p.phase, p.cause)).collect::<Vec<_>>()}));
     for p in &plans {
         case.cover("mode/handshake/phase/cause", format!("{mode:?}/{:?}/{:?}/{:?}", p.handshake, p.phase, p.cause));
@@ -627,6 +630,12 @@ fn c15_ws_lifecycle(case: &Case) {
                             _ = &mut stop_rx => break,
                         }
                     }
+                    if abort_tasks {
+                        // the embedder simply drops its per-connection futures
+                        simkernel::count("fault.embedder_aborts_connection_tasks");
+                        set.shutdown().await;
+                        return;
+                    }
                     sh2.token.cancel();
                     while let Some(r) = set.join_next().await {
                         if let Err(e) = r && e.is_panic() {
@@ -656,6 +665,11 @@ fn c15_ws_lifecycle(case: &Case) {
                             }
                             _ = &mut stop_rx => break,
                         }
+                    }
+                    if abort_tasks {
+                        simkernel::count("fault.embedder_aborts_connection_tasks");
+                        set.shutdown().await;
+                        return;
                     }
                     while let Some(r) = set.join_next().await {
                         if let Err(e) = r && e.is_panic() {
